@@ -16,8 +16,11 @@ pub fn lane_cli_fates(seed: u64, stride: usize) -> Vec<Scenario> {
     v.into_iter()
         .enumerate()
         .filter(|(i, _)| i % stride.max(1) == 0)
-        .map(|(_, mut s)| {
+        .map(|(i, mut s)| {
             s.lane = format!("cli-{}", s.lane);
+            s.cli.debug = i % 3 == 2;
+            s.cli.verbose = i % 4 == 1;
+            s.cli.log_level = [None, None, Some("debug"), None, Some("trace")][i % 5].map(|x| x.to_string());
             s
         })
         .collect()
@@ -28,8 +31,12 @@ pub fn lane_cli_timing(seed: u64, stride: usize) -> Vec<Scenario> {
         .into_iter()
         .enumerate()
         .filter(|(i, s)| i % stride.max(1) == 0 || s.lane.contains("/with-") || s.lane.contains("/wait-DurOver"))
-        .map(|(_, mut s)| {
+        .map(|(i, mut s)| {
             s.lane = format!("cli-{}", s.lane);
+            // (every third with `--debug`: what scrut prints about its work changes nothing of it)
+            s.cli.debug = i % 3 == 1;
+            s.cli.verbose = i % 4 == 2;
+            s.cli.log_level = [None, Some("debug"), None, Some("trace"), None, Some("error")][i % 6].map(|x| x.to_string());
             s
         })
         .collect()
@@ -265,6 +272,15 @@ pub fn lane_random_from(tier: Tier, seed: u64, start: usize, n: usize, tag: &str
                 }
                 if g.chance(10) {
                     cli.keep_crlf = Some(g.chance(50));
+                }
+                if g.chance(12) {
+                    cli.debug = true;
+                }
+                if g.chance(15) {
+                    cli.verbose = true;
+                }
+                if g.chance(15) {
+                    cli.log_level = Some((*g.pick(&["debug", "trace", "info", "error"])).to_string());
                 }
                 if g.chance(8) {
                     // another shell that exists (the simulator does not care which one it is)
@@ -628,7 +644,7 @@ pub fn lane_skip(seed: u64) -> Vec<Scenario> {
                             tier: Tier::Cli,
                             script_mode: false,
                             docs,
-                            cli: Cli { cram_compat: compat, ..Default::default() },
+                            cli: Cli { cram_compat: compat, verbose: pos == 1, log_level: if pos == 2 { Some("debug".into()) } else { None }, ..Default::default() },
                             sim,
                             pretty: false,
                             check: all_checks(),
@@ -893,8 +909,9 @@ pub fn lane_env(seed: u64) -> Vec<Scenario> {
                     // another shell that exists, named in the front-matter, on the command line, or both
                     // (the simulator does not care which one it is; scrut must start the configured one)
                     if f == Format::Md && g.chance(25) {
-                        for d in docs.iter_mut().filter(|d| d.main) {
-                            d.shell = Some((*g.pick(&["/bin/sh", "sh", "/usr/bin/bash"])).to_string());
+                        // (each document its own: what one document resolves to is not the next one's)
+                        for (k, d) in docs.iter_mut().filter(|d| d.main).enumerate() {
+                            d.shell = Some(["/bin/sh", "bash", "/usr/bin/bash", "sh"][(k + g.below(4) as usize) % 4].to_string());
                         }
                         if g.chance(30) {
                             cli.shell = Some((*g.pick(&["/bin/bash", "/bin/sh"])).to_string());
@@ -1024,6 +1041,9 @@ pub fn lane_runs(seed: u64) -> Vec<Scenario> {
             let mut cli = Cli::default();
             // documents and -P/-A named by relative paths in every other outcome class
             cli.relative_paths = oname.len() % 2 == 0;
+            cli.debug = (oname.len() + layout.len()) % 3 == 0;
+            cli.verbose = (oname.len() + layout.len()) % 2 == 0;
+            cli.log_level = [None, Some("debug"), None][(oname.len() + 2 * layout.len()) % 3].map(|x| x.to_string());
             match layout {
                 "front-prepend-append" => {
                     let mut main = mk(&mut g, &mut sim, "r/main.md", Format::Md, plans);
@@ -2321,10 +2341,15 @@ pub fn lane_closed_stderr(seed: u64) -> Vec<Scenario> {
     pool.extend(lane_runs(seed ^ 0x5de).into_iter().step_by(6));
     pool.extend(lane_cli_fates(seed ^ 0x5de, 9));
     pool.into_iter()
-        .filter(|s| s.tier == Tier::Cli && !s.pretty && s.cli.command.is_none() && !s.cli.debug)
+        .filter(|s| s.tier == Tier::Cli && !s.pretty && s.cli.command.is_none())
         .enumerate()
         .map(|(i, mut s)| {
             s.lane = format!("closed-stderr/{}", s.lane);
+            // (no option that makes scrut write to its stderr: the unchanged tree panics - with
+            // `--log-level debug` even aborts - when it cannot; recorded in DESIGN, not generated)
+            s.cli.debug = false;
+            s.cli.verbose = false;
+            s.cli.log_level = None;
             s.sim.faults.push(Fault::OutputClosed { nth: (i % 3) as u32, which: 2 });
             s
         })
